@@ -151,7 +151,7 @@ def run(check):
                   "type, enabled, stop_if, deploy, wait_for, closure timeout, workflow output, foreach items and parallelism), type-adapted so that Prepare accepts "
                   "them; (B) misbehaving plugins (undeclared output id, ill-typed data, nil data, step-fatal and server-fatal errors, dropped connection) at every "
                   "step of 4 shapes and protocol faults at the run-time deployment; oracle: the child process must not die by panic / fatal error (and must not "
-                  "hang); (C) results that appear only because the run is being terminated and reach steps that are being closed; (D) explicit output schemas that do not fit the workflow (missing root object, dangling reference, other types); (E) whole stage inputs (loop items, parallelism, wait_for, closure timeout, stop_if, enabled) that are wait-optional and absent at run time; non-trivial = a fault was injected and the workflow was accepted; distinct = (fault class, position)") % (len(FAULTS), len(POSITIONS))
+                  "hang); (C) results that appear only because the run is being terminated and reach steps that are being closed; (D) explicit output schemas that do not fit the workflow (missing root object, dangling reference, other types); (F) stage inputs written as plain constants on loop and plugin steps; (E) whole stage inputs (loop items, parallelism, wait_for, closure timeout, stop_if, enabled) that are wait-optional and absent at run time; non-trivial = a fault was injected and the workflow was accepted; distinct = (fault class, position)") % (len(FAULTS), len(POSITIONS))
     check.assumptions = ["workflow inputs are schema-valid", "a rejected workflow is not a violation but is counted (coverage lost)"]
     gs = []
     for (fclass, ftype, fexpr, ov) in FAULTS:
@@ -196,7 +196,7 @@ def run(check):
         scripts["h"]["exec"] = {"outcome": "hang", "on_cancel": on_cancel}
         gs.append({"program": prog, "scripts": scripts, "input": gen.base_input(rng), "shape": "late-result/%s/%s/%s" % (ending, on_cancel, "+".join(sorted(kinds))), "outcome": {},
                    "fault": ("result-produced-by-termination", "%s %s" % (on_cancel, "+".join(sorted(kinds))))})
-    # (E) whole stage inputs that are absent at run time: a wait-optional value for a loop's items / parallelism or a step's
+    # (F) stage inputs written as plain constants on loop and plugin steps; (E) whole stage inputs that are absent at run time: a wait-optional value for a loop's items / parallelism or a step's
     # wait_for / closure timeout whose source is disabled or fails, so nothing is there when the stage is due
     for src_outcome in ("disabled", "error", "crash", "success"):
         for pos in ("items", "parallelism", "wait_for", "closure_wait_timeout", "stop_if", "enabled"):
@@ -229,6 +229,24 @@ def run(check):
             scripts = gen.make_scripts(steps, {"g": src_outcome} if src_outcome in ("error", "crash") else {})
             gs.append({"program": prog, "scripts": scripts, "input": {"tag": "T1", "items": [{"tag": "i0"}, {"tag": "i1"}]}, "shape": "absent-stage-input/%s/source-%s" % (pos, src_outcome), "outcome": {},
                        "fault": ("absent-stage-input", "%s source %s" % (pos, src_outcome))})
+    # (F) constants where expressions are usual: `enabled`, `parallelism`, `closure_wait_timeout`, `stop_if` written as plain YAML
+    # values on loop and plugin steps (constants reach the providers as text)
+    for kind in ("foreach", "plugin"):
+        for field, values in (("enabled", [True, False, "true", "false", "yes", 1]), ("parallelism", [1, 2, "2"]), ("closure_wait_timeout", [0, 50, "50"]), ("stop_if", [False, "false"])):
+            if (kind == "foreach") != (field in ("enabled", "parallelism")) and field != "enabled":
+                continue
+            for v in values:
+                if kind == "foreach":
+                    sub = gen.sub_program("sub.yaml", 1)
+                    st = Step("loop", "foreach", sub=sub, items=[{"tag": "i0"}, {"tag": "i1"}])
+                    outs = {"success": {"d": Expr(Ref("loop", "outputs", "success", "data"))}, "skipped": {"m": Expr(Ref("loop", "disabled", "output", "message"))}}
+                else:
+                    st = gen.plugin_step("b", Expr(In("tag")))
+                    outs = {"success": {"b": gen.tagref("b")}, "skipped": {"m": Expr(Ref("b", "disabled", "output", "message"))}, "closed": {"c": Expr(Ref("b", "closed", "result"))}}
+                st.fields[field] = v
+                prog = Program([st], outs, C07_INPUT)
+                gs.append({"program": prog, "scripts": gen.make_scripts([st], {}), "input": {"tag": "T1"}, "shape": "constant-stage-input/%s.%s=%r" % (kind, field, v), "outcome": {},
+                           "fault": ("constant-stage-input", "%s.%s=%r" % (kind, field, v))})
     # (D) explicit output schemas that do not fit the workflow: refused at preparation or an error of the run, never a crash
     def obj(oid, props):
         return {"id": oid, "properties": {k: {"type": t} for k, t in props.items()}}
